@@ -28,7 +28,7 @@ class Check(FormulaCheck):
             '(all shapes up to 4x4 quick / 8x8 thorough) of distinct numbers or text, as literal, variable or range value; MATCH types 0/1/-1 on '
             'ascending/descending arrays with duplicates, zeros, negatives, present/absent/below/above lookups, wildcards. non-trivial = compared '
             'with the model; distinct = distinct (function, array, indices, injection).')
-    ASSUMPTIONS = ('the two-index form on a 1-D array may read it as a row or as a column (or refuse), but must not answer anything neither reading addresses; area_num is unspecified; arrays are homogeneous; "[" is excluded from lookup text',
+    ASSUMPTIONS = ('the two-index form on a 1-D array may read it as a row or as a column (or refuse), but must not answer anything neither reading addresses; area_num is unspecified; MATCH arrays are homogeneous (INDEX arrays also mix numbers, text, logicals and date-times); "[" is excluded from lookup text',
                    'fractional indices need only give an error or the truncated position',
                    'INDEX with every given index 0/omitted may return the whole array or an error',
                    'MATCH types 1/-1: any position holding the qualifying extreme value is accepted (duplicates)')
@@ -53,6 +53,8 @@ class Check(FormulaCheck):
         how = rnd.choice(['lit', 'var', 'range'])
         if how == 'lit' and arr and isinstance(arr[0], list) and not (len(arr) == 2 and len(arr[0]) >= 2):
             how = 'var'         # only two-row literals with rows of 2+ elements are array-of-rows literals (C05)
+        if how == 'lit' and any(isinstance(x, bool) or not isinstance(x, (int, float, str)) for x in self.elements(arr)):
+            how = 'var'         # date-times have no literal form (and logicals are kept as host values)
         if how == 'lit':
             return arr_literal(arr), how
         if how == 'var':
@@ -134,6 +136,14 @@ class Check(FormulaCheck):
         if kind == 'num':
             vals = rnd.sample(range(-50, 200), n)
             return [v if rnd.random() < 0.7 else v + 0.5 for v in vals]
+        if kind == 'mixed':       # INDEX does not look at what the elements are: numbers, text, logicals and date-times side by side
+            import datetime
+            pool = [v + 0.25 for v in range(-30, 30)] + list(range(100, 160)) + ['apple', 'Pear', 'x y', '12', 'TRUE', '#N/A', 'a,b'] + \
+                   [datetime.datetime(2000 + k, 1 + k % 12, 1 + k % 28) for k in range(20)]
+            vals = rnd.sample(pool, n)
+            if n >= 2:
+                vals[rnd.randrange(n)] = rnd.choice([True, False])
+            return vals
         words = ['apple', 'pear', 'Plum', 'fig', 'kiwi', 'Lime', 'date', 'nut', 'yam', 'pea', 'oat', 'rye', 'bean', 'corn', 'leek', 'kale', 'a,b', 'x y', '']
         pool = [w + s for s in ('', '2', '_z', '!') for w in words]
         return rnd.sample(pool, n)
@@ -142,7 +152,7 @@ class Check(FormulaCheck):
         rnd = self.rng(spec)
         idx = list(range(-10, 0)) + [0]
         for n in spec['oned']:
-            for kind in ('num', 'text'):
+            for kind in ('num', 'text', 'mixed'):
                 arr = self.mkarray(rnd, n, kind)
                 for i in idx + list(range(1, n + 11)):
                     self.judge_index(arr, i, None, rnd, False)
@@ -152,7 +162,7 @@ class Check(FormulaCheck):
                     for c in range(-2, n + 3):
                         self.judge_index(arr, r, c, rnd, False)
         for (R, C) in spec['shapes']:
-            for kind in ('num', 'text'):
+            for kind in ('num', 'text', 'mixed'):
                 flat = self.mkarray(rnd, R * C, kind)
                 arr = [flat[k * C:(k + 1) * C] for k in range(R)]
                 rs = idx + list(range(1, R + 11)) + [None]
